@@ -15,9 +15,9 @@ for t, items in sorted(bytable.items()):
     path = "/verif/tables/%s.json" % t
     doc = json.load(open(path))
     ent = doc["entries"] if "entries" in doc else doc
-    for k in [k for k, v in ent.items() if k.startswith("shape:")]:
+    for k in [k for k, v in ent.items() if k.startswith(("shape:", "position:", "via:", "assert-field|"))]:
         del ent[k]
     for k, fp in sorted(items):
-        ent[fp] = "the construct listed as %r, recognised by the shape of its enclosing function when private names have changed: %s" % (k, ent[k][:200])
+        ent[fp] = "the construct listed as %r, recognised by shape or by exported vocabulary when private names have changed: %s" % (k, ent[k][:200])
     json.dump(doc, open(path, "w"), indent=1, ensure_ascii=False)
     print(t, len(items), "shape keys")
